@@ -684,5 +684,5 @@ def run(tier="quick"):
                        "pattern operations beyond predicate agreement and two-pass structure"]
     for m in models:
         rep.configs.append(m.config)
-        rules(rep, m)
+        common.run_rules(rep, m, rules)
     return rep.finish()
